@@ -10,7 +10,7 @@ pixels that actually respond, at their true coordinates.
 import numpy as np
 
 from aomon.oracles import vk
-from aomon.probes import ScriptedGenerator, RecordingGenerator
+from aomon.probes import ScriptedGenerator, RecordingGenerator, ProbeNotApplicable
 
 LEVEL = "exploration"
 TECHNIQUE = "state probing of the live object through add_row() with a scripted Generator (effective A, B observed), second-order identities vs float64 reference covariance; trace conformance with a recording Generator; numba bounds-check / no-JIT differential"
@@ -70,8 +70,9 @@ def probe_maps(ctx, scr, gen):
     zero = np.zeros(shape)
     off, req = step(zero, None)
     ctx.check(float(np.abs(off).max()) == 0.0, "offset_nonzero", "zero screen and zero innovations give a non-zero row", None)
-    ctx.check(len(req) == 1 and req[0] is not None and int(np.prod(req[0])) == nrow_len, "draw_request",
-              "add_row requested draws %s (expected one vector of %d standard normals)" % (req, nrow_len), None)
+    if not (len(req) == 1 and req[0] is not None and int(np.prod(req[0])) == nrow_len):
+        # innovations are not requested one vector per row (e.g. drawn in blocks): they cannot be scripted from outside
+        raise ProbeNotApplicable("add_row requested draws %s" % (req,))
     M = np.zeros((nrow_len, npix))
     for p in range(npix):
         c = zero.copy()
@@ -101,7 +102,12 @@ def check_screen(ctx, aotools, variant, nx, ps, r0, L0, extra, rng, tag):
     ctx.case("screen:" + variant, key=(variant, nx, ps, r0, L0, extra), nontrivial=True, sample=wit)
     shape = scr._scrn.shape
     nin = shape[1]
-    M, B, step = probe_maps(ctx, scr, gen)
+    try:
+        M, B, step = probe_maps(ctx, scr, gen)
+    except ProbeNotApplicable as e:
+        ctx.count("screens_whose_innovations_cannot_be_scripted")
+        ctx.note("probe not applicable: %s" % e)
+        return False
     B0 = vk.variance(r0, L0)
     # which pixels are read at all?
     resp = np.where(np.abs(M).max(axis=0) > 0)[0]
@@ -210,7 +216,10 @@ def check_natural(ctx, aotools, variant, nx, ps, r0, L0, extra, rng):
     try:
         probe_gen = ScriptedGenerator([])
         probe = build(aotools, variant, nx, ps, r0, L0, extra, probe_gen)
-        M, B, _ = probe_maps(ctx, probe, probe_gen)
+        try:
+            M, B, _ = probe_maps(ctx, probe, probe_gen)
+        except ProbeNotApplicable:
+            return
         rec = RecordingGenerator(int(rng.integers(0, 2 ** 31)))
         scr = build(aotools, variant, nx, ps, r0, L0, extra, rec)
     except (linalg.LinAlgError, np.linalg.LinAlgError):
